@@ -3,7 +3,7 @@ import json, os, threading, copy
 import vlib
 
 REPO = os.environ.get("VERIF_REPO") or os.environ.get("YUI_REPO", "/repo")
-YKH_TARGET = os.path.join(vlib.BUILD, "ykh")
+YKH_TARGET = os.path.join(vlib.BUILD, "ykh-alt" if vlib.ALT else "ykh")
 YKH = os.path.join(YKH_TARGET, "release", "ykh")
 MC_ACTIONS = ["DoErr", "DoTable", "DoInternal"]
 
